@@ -8,15 +8,15 @@ From Kit Require Import C03.Model C03.Spec C03.Proofs_dispatch.
 (* For EVERY algorithm name, key object, nonce, associated data and plaintext:
    - some input is of the wrong kind or size with a sentinel defined for it  =>  an error (no
      output) whose sentinel is one of those that apply;
-   - nothing is wrong  =>  the name is one of the 19, and the call returns output, except for
-     key data that is not whole 64-bit blocks (refused with the sub-package's own error). *)
+   - nothing is wrong  =>  the name is one of the 19, and the call returns output, except for empty or
+     partial-block key data (refused with the sub-package's own error).  Current tree. *)
 Theorem dispatch_total_encrypt : forall alg key nonce aad pt,
   let ps := sym_problems false alg key nonce [] pt in
-  (ps <> [] -> exists e, encrypt_symmetric alg key nonce aad pt = Err e /\ In e ps) /\
+  (ps <> [] -> exists e, encrypt_symmetric Fixed alg key nonce aad pt = Err e /\ In e ps) /\
   (ps = [] -> exists st, sym_std_of alg = Some st /\
       if data_unnamed_problem false (ss_kind st) (List.length pt)
-      then encrypt_symmetric alg key nonce aad pt = Err ErrOther
-      else exists out, encrypt_symmetric alg key nonce aad pt = Ok out).
+      then encrypt_symmetric Fixed alg key nonce aad pt = Err ErrOther
+      else exists out, encrypt_symmetric Fixed alg key nonce aad pt = Ok out).
 Proof.
   intros alg key nonce aad pt ps.
   pose proof (dispatch_encrypt_sound alg key nonce aad pt) as Hs.
@@ -58,5 +58,5 @@ Qed.
 Example dispatch_total_encrypt_nonvacuous :
   sym_problems false "A128GCM"%string (KOct (repeat 0%N 8)) (repeat 0%N 3) [] []
   = [ErrKeyTypeMismatch; ErrInvalidNonce] /\
-  encrypt_symmetric "A128GCM"%string (KOct (repeat 0%N 8)) (repeat 0%N 3) [] [] = Err ErrKeyTypeMismatch.
+  encrypt_symmetric Fixed "A128GCM"%string (KOct (repeat 0%N 8)) (repeat 0%N 3) [] [] = Err ErrKeyTypeMismatch.
 Proof. split; reflexivity. Qed.
